@@ -565,8 +565,18 @@ impl Checker {
             }
             self.scratch = buf;
             good
+        } else if let St::Err(_) = m.status() {
+            // the reference grammar has already rejected these bytes (its Err is absorbing): nothing
+            // that can follow makes them an accepted head, whatever this implementation would go
+            // on to answer — C11 speaks of heads the grammar accepts, and an implementation that
+            // wrongly accepts a continuation must not make its own Partial look honest
+            self.violation(
+                "Partial, but the bytes received can no longer become an accepted head".into(),
+                lane, input, describe_obs(o), format!("reference grammar: {:?} (only target UTF-8 validity and header capacity may be judged later, and the grammar defers them too)", m.status()), None,
+            );
+            false
         } else {
-            // the model has already decided: try the whole finite completion set
+            // the model says Complete: try the whole finite completion set
             let set = std::mem::take(&mut self.comp_set);
             let mut good = false;
             for s in &set {
